@@ -74,7 +74,9 @@ def configurations():
 
 
 INVALID = ["eph_stealth", "eph_with_dir", "fs_with_key", "fs_single", "both_auth",
-           "str_bad_version", "str_dir_and_key", "str_bad_singlehop", "str_version_word"]
+           "str_bad_version", "str_dir_and_key", "str_bad_singlehop", "str_version_word",
+           # the deprecated stealth_auth= keyword must be refused exactly like auth=AuthStealth(..)
+           "eph_stealth_legacy", "implicit_eph_stealth_legacy"]
 
 
 class Run(object):
@@ -180,6 +182,10 @@ class Run(object):
         # invalid combinations
         if cfg == "eph_stealth":
             return TCPHiddenServiceEndpoint(r, c, 80, ephemeral=True, auth=AuthStealth(["alice"]))
+        if cfg == "eph_stealth_legacy":
+            return TCPHiddenServiceEndpoint(r, c, 80, ephemeral=True, stealth_auth=["alice", "bob"])
+        if cfg == "implicit_eph_stealth_legacy":
+            return TCPHiddenServiceEndpoint(r, c, 80, stealth_auth=["alice"])
         if cfg == "eph_with_dir":
             return TCPHiddenServiceEndpoint(r, c, 80, ephemeral=True, hidden_service_dir="/tmp/nonexistent-hs")
         if cfg == "fs_with_key":
